@@ -284,16 +284,19 @@ def signSplit : Str → Bool × Str
 def dig (c : Char) : Nat := c.toNat - '0'.toNat
 def dval (cs : List Char) : Nat := cs.foldl (fun acc c => acc * 10 + dig c) 0
 
+def fracSpan : Str → Str × Str
+  | '.' :: r => spanP isDigit r
+  | r => ([], r)
+
+def parseCore (neg : Bool) (ip fp rest : Str) : Option Dec :=
+  if !rest.isEmpty then none
+  else if ip.isEmpty && fp.isEmpty then none
+  else if fp.length > 28 then none
+  else if dval (ip ++ fp) ≥ 2 ^ 96 then none
+  else some ⟨if neg then -(dval (ip ++ fp) : Int) else dval (ip ++ fp), fp.length⟩
+
 def parseUnsigned (neg : Bool) (body : Str) : Option Dec :=
-  let s1 := spanP isDigit body
-  let s2 := match s1.2 with | '.' :: r => spanP isDigit r | r => ([], r)
-  if !s2.2.isEmpty then none
-  else if s1.1.isEmpty && s2.1.isEmpty then none
-  else if s2.1.length > 28 then none
-  else
-    let m : Nat := dval (s1.1 ++ s2.1)
-    if m ≥ 2 ^ 96 then none
-    else some ⟨if neg then -(m : Int) else m, s2.1.length⟩
+  parseCore neg (spanP isDigit body).1 (fracSpan (spanP isDigit body).2).1 (fracSpan (spanP isDigit body).2).2
 
 def parseDecText (t : Str) : Option Dec := parseUnsigned (signSplit t).1 (signSplit t).2
 
